@@ -8,11 +8,13 @@ CONSTANTS
   Banned = {}
   Asking = {}
   AskAnswersInHand = TRUE
+  DrainAfterStopped = TRUE
+  FilteredFailAnswers = FALSE
   BufCap = 3
   FixFlushOnStop = TRUE
   MaxResets = 1
   WithStop = TRUE
   Det = FALSE
-INVARIANTS TypeOK AtMostOnce NoLostRequest NoStuckSender PairingFIFO
+INVARIANTS TypeOK AtMostOnce NoLostRequest NoStuckSender PairingFIFO OwnReply
 PROPERTIES QuitLeadsToDone
 CHECK_DEADLOCK FALSE
